@@ -5,13 +5,15 @@ of specs/ArchiveLife.tla.  Contains no oracle: the records are judged by
 specs/ArchiveLifeTrace.tla.  The only comparisons made here are R4 self-checks of the harness'
 own concretise / project functions (initial world, environment steps, tar reader vs. real tar).
 
-Every path the class uses is pointed into the sandbox: constants.insights_tmp_path ->
-<root>/var/tmp, the object's keep_archive_dir (and constants.cache_dir) ->
-<root>/var/cache/insights-client, PATH -> <root>/bin (links to the real tar / gzip / bzip2 / xz),
-the working directory -> <root>/cwd.  While a method of the class runs, an audit hook refuses
-(and records) every file-system write whose target is outside <root>, and every copytree whose
-source is outside <root>; nothing outside the sandbox can be created or removed by the code
-under test, whatever it does.
+Every path the class uses is pointed into the sandbox <base> of the driver process (a temporary
+directory below the scratch directory): per history a fresh world <root> = <base>/w*, with
+constants.insights_tmp_path -> <root>/var/tmp, the object's keep_archive_dir (and
+constants.cache_dir) -> <root>/var/cache/insights-client, the working directory -> <root>/cwd;
+per process the files to copy from (<base>/src) and PATH -> <base>/bin (links to the real tar /
+gzip / bzip2 / xz).  While a method of the class runs, an audit hook refuses (and records) every
+file-system write whose target is outside <base>, and every copytree whose source is outside
+<base>; nothing outside the sandbox can be created or removed by the code under test, whatever
+it does.
 
 usage: drive_archivelife.py <in.json> <out.json>
 in : {"cases":[{"id","cfg":{comp,keep},"init":{planted,keepdir,tool},"steps":[{op,x,y},..]}], "seed": n}
